@@ -277,8 +277,12 @@ fn main() {
 
     let mut others = Vec::new();
     for (tag, var) in [("prod", "VERIF_BIN_PROD"), ("dbg", "VERIF_BIN_DBG")] {
+        // replay (./check builds no extra lanes for it): fall back to the binaries a previous
+        // ./check run left in <root>/target/bin
+        let fallback = format!("{}/target/bin/c19-{tag}", std::env::var("VERIF_ROOT").unwrap_or_else(|_| "/verif".into()));
         match std::env::var(var) {
             Ok(b) if std::path::Path::new(&b).exists() => others.push(Other { tag, bin: b }),
+            _ if r.replay.is_some() && std::path::Path::new(&fallback).exists() => others.push(Other { tag, bin: fallback }),
             _ => {
                 if r.replay.is_none() {
                     r.machinery_error(&format!("{var} not set / not a file: the cross-profile differential needs the {tag} build (./check builds it; by hand: cargo build --offline --profile {})", if tag == "prod" { "verifrel" } else { "verifdbg" }))
